@@ -13,7 +13,7 @@ from .. import build as B
 PROPERTY = "C14"
 LEVEL = "exploration"
 VARIANTS = ["fast"]
-RULE = ("layouts = all sequences of <=2 (quick) / <=3 (thorough) blocks from 19 block kinds (x LF/CRLF), probe = 7 kinds x 3 column offsets, "
+RULE = ("layouts = all sequences of <=2 (quick) / <=3 (thorough) blocks from 19 block kinds (x LF/CRLF), probe = 9 kinds x 3 column offsets, "
         "probe in the main file or inside an included file; a case = (layout, line ending, probe kind, column); non-trivial = layout has "
         "at least one block; distinct by case")
 ASSUMPTIONS = [
@@ -50,12 +50,17 @@ INC_FILES = {
     "inc_a.hpp": ["// inc a", "#define IA 1", "ia = IA;", "/* x", " y */", "ia2 = 2;"],
     "inc_b.hpp": ["ib = 1;", '#include "/inc_a.hpp"', "ib2 = 2;", "#define IB(a) a \\", " + 1"],
     "inc_probe.hpp": None,   # written per case
+    "inc_defs.hpp": ["// position macros", "#define VF_ID(a) a", "#define VF_HERE_LINE VF_ID(__LINE__)", "#define VF_HERE_FILE VF_ID(__FILE__)"],
 }
 PROBES = {
     "type-error": ('1 + "a";', 60076),
     "diag_log": ('diag_log "P";', 60019),
     "line-macro": ("diag_log str [__LINE__];", 60019),
     "file-macro": ("diag_log str [__FILE__];", 60019),
+    # the position macros as argument of a function-like macro inside the body of another macro that is defined in
+    # another file: they name the place where the outer macro is USED
+    "line-macro-nested": ("diag_log str [VF_HERE_LINE];", 60019),
+    "file-macro-nested": ("diag_log str [VF_HERE_FILE];", 60019),
     "parse-error": ("x = ;", None),
     "stacktrace": ('call { call { 1 + "b" } };', 60001),
     "undefined-variable": ("y = _undef1;", 60070),
@@ -81,6 +86,8 @@ def gen(maxblocks, endings):
 def build(case):
     layout, ending, probe, col, where = case
     lines = []
+    if probe.endswith("-nested"):
+        lines.append('#include "/inc_defs.hpp"')
     for b in layout:
         lines += BLOCKS[b]
     probe_text = " " * col + PROBES[probe][0]
@@ -130,7 +137,7 @@ def observe(r, probe):
         elif m["code"] == code:
             if probe == "diag_log" and "[DIAG_LOG] P" not in m["msg"]:
                 continue
-            if probe in ("line-macro", "file-macro") and "[DIAG_LOG] [" not in m["msg"]:
+            if probe in ("line-macro", "file-macro", "line-macro-nested", "file-macro-nested") and "[DIAG_LOG] [" not in m["msg"]:
                 continue
             if probe == "type-error" and "STRING" not in m["msg"]:
                 continue
@@ -148,7 +155,7 @@ def calibrate(ws, ending, probe, col, where):
         if o is None:
             raise RuntimeError("calibration failed for %r: %r" % (key, r.get("result", {}).get("log", r)))
         line_macro = None
-        if probe == "line-macro":
+        if probe.startswith("line-macro"):
             line_macro = int(float(o[3].strip("[]")))
         _calib[key] = (o[0] - pline, o[1], line_macro - pline if line_macro is not None else None)
     return _calib[key]
@@ -178,11 +185,11 @@ def check(ws, case):
         viols.append(("C14|%s|wrong-file|%s" % (tag, feat), "layout %r: diagnostic names file %r, the probe is in %r" % (layout, path, target), None, case))
     elif c != base_col:
         viols.append(("C14|%s|column-drift|%s" % (tag, feat), "layout %r: column %s, expected %s" % (layout, c, base_col), None, case))
-    if probe == "line-macro" and not viols:
+    if probe.startswith("line-macro") and not viols:
         got = int(float(val.strip("[]")))
         if got != pline + base_macro:
             viols.append(("C14|%s|__LINE__-value|%s" % (tag, blame(layout)), "layout %r: __LINE__ is %d, expected %d" % (layout, got, pline + base_macro), None, case))
-    if probe == "file-macro" and not viols:
+    if probe.startswith("file-macro") and not viols:
         if target not in (val or ""):
             viols.append(("C14|%s|__FILE__-value|%s" % (tag, feat), "layout %r: __FILE__ is %s, expected a path ending in %s" % (layout, val, target), None, case))
     return viols, info
